@@ -83,6 +83,15 @@ CLAIMED = {
             'ack for its TTL, not served nor listed after TTL+grace, renews in time, is not forwarded to after its entry was deleted or beyond the grace after it unregistered.',
             'Trusted: population/timeline models; 30 s grace band and +-1.5 s around every timeline edge accepted either way; must-reach clauses on fault-free runs only; loop stalls are not part of the quantifier.',
             'DESIGN.md section 3 (C13), 12.4'),
+    'C15': ('exploration',
+            'deterministic simulation: seeded read/write/RPM sequences from real client stacks over a faulty LAN; reference object store applied at each server-side indication (linearisation point) and compared with the emitted response',
+            'A device stack with seeded objects (every registered standard object type in the enumerated type sweep; 2-6 objects from 14 classes with seeded writable subsets in the exploration) serves '
+            'ReadProperty / WriteProperty / ReadPropertyMultiple sequences with values generated from each declared datatype, wrong-typed values, all array index classes, priorities, unknown objects '
+            'and properties, selectors, under hashed drop/dup/delay plans and small APDU sizes. The reference store is applied at each request the serving application is indicated with, incl. '
+            're-indications by retries and late duplicates, and the response emitted for it must be the expected value octets or a refusal code of the allowed set; all-or-nothing is checked '
+            'by reading every modelled value back at the end.',
+            'Trusted: the reference store and error-cause model; harness-side canonicalisation with the library encoder; computed and uninitialised properties are not value-modelled.',
+            'DESIGN.md section 3 (C15)'),
     'C14': ('exploration',
             'deterministic simulation of the real scheduler under both real loop drivers (run_once stepped; run() with shimmed asyncore and in-memory trigger), reference-scheduler monitor',
             'Every history (enumerated short op sequences over 2-3 tasks with colliding times, every subset of raising members in deferred batches and same-instant '
